@@ -107,6 +107,9 @@ pub fn build(
                 format!("implicit value for case `{name}` of enum `{resolvee_path}` overflows")
             })?,
         };
+        if fields.iter().any(|(other, _)| *other == name.0) {
+            anyhow::bail!("enum `{resolvee_path}` has more than one case named `{name}`");
+        }
         if let Some((other, _)) = fields.iter().find(|(_, v)| *v == value) {
             anyhow::bail!(
                 "case `{name}` of enum `{resolvee_path}` has the value {value}, which case `{other}` already has"
